@@ -528,17 +528,28 @@ func (r *Roles) resolveFunctions() {
 		}
 	}
 	if r.FnLoop != nil {
+		// the connection's two signal channels: the exit signal is the one that gets closed (by the
+		// loop's deferred cleanup), the activity signal the one that is sent on
 		for _, ec := range r.emptyChans {
-			closedInLoop := false
-			for _, u := range usesOfKind(usesIn(p.uses(ec), r.FnLoop), "close") {
-				if _, ok := u.At.(*ssa.Defer); ok {
-					closedInLoop = true
-				}
-			}
-			if closedInLoop {
+			closed := len(usesOfKind(p.uses(ec), "close")) > 0
+			sent := len(usesOfKind(p.uses(ec), "send", "select-send")) > 0
+			switch {
+			case closed && !sent:
 				r.FExiting = ec
-			} else {
+			case sent && !closed:
 				r.FPongs = ec
+			default:
+				closedInLoop := false
+				for _, u := range usesOfKind(usesIn(p.uses(ec), r.FnLoop), "close") {
+					if _, ok := u.At.(*ssa.Defer); ok {
+						closedInLoop = true
+					}
+				}
+				if closedInLoop {
+					r.FExiting = ec
+				} else {
+					r.FPongs = ec
+				}
 			}
 		}
 	}
